@@ -309,6 +309,34 @@ theorem shape_pre_mem (b0 b : Nat) (pre body rest : List Char) (h : Shape b0 b p
     rcases hp with hp | hp | hp <;> rw [hp] <;> decide
   · have := digit_not_special b c (h.1 c hc); exact ⟨this.2.2.1, this.1⟩
 
+/-- a valid field starts with a digit -/
+theorem shape_head (b0 b : Nat) (pre body rest : List Char) (h : Shape b0 b pre body rest) (hv : pre = ['0'] ∨ body ≠ []) :
+    ∃ c, (pre ++ (body ++ rest)).head? = some c ∧ c ≠ '-' ∧ c ≠ '+' ∧ isSpace c = false := by
+  have h0 : ∀ t : List Char, ∃ c, ('0' :: t).head? = some c ∧ c ≠ '-' ∧ c ≠ '+' ∧ isSpace c = false :=
+    fun t => ⟨'0', rfl, by decide, by decide, by decide⟩
+  have hbody : pre = [] → ∃ c, (pre ++ (body ++ rest)).head? = some c ∧ c ≠ '-' ∧ c ≠ '+' ∧ isSpace c = false := by
+    intro hp; subst hp
+    have hne : body ≠ [] := hv.elim (fun h => by cases h) id
+    cases body with
+    | nil => exact absurd rfl hne
+    | cons a t =>
+      have := digit_not_special b a (h.1 a List.mem_cons_self)
+      exact ⟨a, rfl, this.1, this.2.1, this.2.2.2.2.2⟩
+  rcases h.2.2 with ⟨_, _, hp⟩ | ⟨_, _, hp, _⟩ | ⟨_, _, hp, _⟩ | ⟨_, _, hp | hp⟩
+  · exact hbody hp
+  · exact hbody hp
+  · subst hp; exact h0 _
+  · subst hp; exact h0 _
+  · subst hp; exact h0 _
+
+theorem signOK_of_head (sg r : List Char) (hsg : sg = [] ∨ sg = ['-'] ∨ sg = ['+'])
+    (hr : ∃ c, r.head? = some c ∧ c ≠ '-' ∧ c ≠ '+' ∧ isSpace c = false) : SignOK sg r := by
+  obtain ⟨c, h1, h2, h3, -⟩ := hr
+  rcases hsg with h | h | h
+  · left; refine ⟨h, ?_, ?_⟩ <;> rw [h1] <;> simp [h2, h3]
+  · right; left; exact h
+  · right; right; exact h
+
 /-- a `%Z` field `sg ++ pre ++ body` followed by `tail`, any scan base: read whole, the look-ahead pushed back -/
 theorem gmpscan_field_Z (b0 b : Nat) (ign : Bool) (sg pre body tail : List Char)
     (hsg : SignOK sg (pre ++ (body ++ tail))) (hsh : Shape b0 b pre body tail) (hv : pre = ['0'] ∨ body ≠ [])
